@@ -5,6 +5,8 @@
 //	c14-replay <file>   replay the behaviours exported by GenProperty on real objects
 //	c14-gated  <file>   force the schedules exported by GenPropertySteps with the
 //	                    gates prop.{set,update}.{validate,save,notify}
+//	c14-churn  <file>   force the schedules with a changing subscriber set (snapshot + one send
+//	                    per subscriber, gates signal.update.send / register / unregister)
 //	c14-record <out>    record concurrent histories (inv/res/ev) for TraceProperty
 //	c13-*               see signal.go
 package main
